@@ -180,6 +180,8 @@ def classify_exception(exc):
     repo_real = os.path.realpath(REPO) + os.sep
     verif_real = os.path.realpath(VERIF_DIR) + os.sep
     for f in reversed(frames):
+        if not os.path.isabs(f.filename):
+            continue   # e.g. Cython frames such as "numpy/random/mtrand.pyx" (relative, would resolve against cwd)
         fn = os.path.realpath(f.filename)
         if fn.startswith(repo_real):
             return 'cut'
